@@ -52,6 +52,14 @@ pub unsafe fn stub_sub_bytes(block: __m128i, sbox: &[u8; 256]) -> __m128i {
     }
 }
 
+/// key schedule harness: transform(., &ENC_TABLE) := the single uninterpreted function LS (no other use of transform there)
+pub unsafe fn stub_transform_ls(block: __m128i, table: &Table) -> __m128i {
+    #[cfg(kani)]
+    kani::assert(core::ptr::eq(table, &ENC_TABLE), "VERIF_STUB_TABLE");
+    let _ = table;
+    to_m(&k::uls1(&from_m(block)))
+}
+
 // ---------------------------------------------------------------------------------------------------------- leaves
 
 //@ harness name=kuz_leaf_consts prop=C07,C20 tier=quick bits=16 est=45 desc="L: P[x] == pi(x), P_INV[x] == pi^-1(x), pi^-1(pi(x)) == x == pi(pi^-1(x)) for all octets x; KEYGEN[i] == C_{i+1} = L(Vec128(i+1)) for symbolic i in 0..32 (field arithmetic of the oracle computed)"
@@ -131,32 +139,21 @@ verif_harness! {
     }
 }
 
-// ---------------------------------------------------------------------------------------------------------- wiring: encryption
+// ---------------------------------------------------------------------------------------------------------- key schedule
 
-//@ harness name=kuz_sse2_keys prop=C07,C20 tier=thorough bits=256 stub=1 est=120 mem=30 cap=3600 desc="W: round keys of KuznyechikEnc::new(key) (expand_enc_keys) == oracle K1..K10 (Feistel key schedule with C_1..C_32), all 2^256 keys"
+//@ harness name=kuz_sse2_keys prop=C07,C20 tier=quick bits=256 stub=1 est=120 desc="W: round keys of KuznyechikEnc::new(key) (sse2 expand_enc_keys, incl. the aligned loads of KEYGEN) == oracle K1..K10 (Feistel key schedule with the computed C_1..C_32) for all 2^256 keys; transform(., &ENC_TABLE) and the oracle's L S are ONE uninterpreted function (32 applications per side); the oracle's C_i come from the compile-time table (lemma kuz_oracle_consts)"
 verif_harness! {
     name: kuz_sse2_keys,
     bytes: 32,
     unwind: 70,
-    stubs: [(crate::sse2::backends::transform, stub_transform), (crate::sse2::backends::sub_bytes, stub_sub_bytes)],
+    stubs: [(crate::sse2::backends::transform, stub_transform_ls), (refmodels::kuznyechik::c, k::stub_c)],
     prop: |inp| { k::w_keys(inp) }
 }
-//@ harness name=kuz_sse2_enc_key prop=C07,C03,C12,C20 tier=thorough bits=384 stub=1 est=200 mem=30 cap=3600 desc="W: KuznyechikEnc::new(key).encrypt_block(b) == oracle E(key schedule(key), b), all keys, all blocks"
-verif_harness! {
-    name: kuz_sse2_enc_key,
-    bytes: 48,
-    unwind: 70,
-    stubs: [(crate::sse2::backends::transform, stub_transform), (crate::sse2::backends::sub_bytes, stub_sub_bytes)],
-    prop: |inp| { k::w_enc_key(inp, 0) }
-}
-//@ harness name=kuz_sse2_enc_key_both prop=C07,C03,C12,C20 tier=thorough bits=384 stub=1 est=200 mem=30 cap=3600 desc="W: Kuznyechik::new(key).encrypt_block(b) == oracle E(key schedule(key), b), all keys, all blocks"
-verif_harness! {
-    name: kuz_sse2_enc_key_both,
-    bytes: 48,
-    unwind: 70,
-    stubs: [(crate::sse2::backends::transform, stub_transform), (crate::sse2::backends::sub_bytes, stub_sub_bytes)],
-    prop: |inp| { k::w_enc_key(inp, 1) }
-}
+
+// ---------------------------------------------------------------------------------------------------------- wiring: encryption
+// transform / sub_bytes := S, L uninterpreted inverse pairs (kz_common); arbitrary round keys (a superset of the key schedule's
+// outputs): with kuz_sse2_keys this is conformance for all keys.
+
 //@ harness name=kuz_sse2_enc_rk prop=C07,C03,C12,C20 tier=quick bits=1408 stub=1 est=57 desc="W: KuznyechikEnc over arbitrary round keys: encrypt_block == oracle E (9 LSX rounds + X), all round keys, all blocks"
 verif_harness! {
     name: kuz_sse2_enc_rk,
@@ -173,7 +170,7 @@ verif_harness! {
     stubs: [(crate::sse2::backends::transform, stub_transform), (crate::sse2::backends::sub_bytes, stub_sub_bytes)],
     prop: |inp| { k::w_enc_rk(inp, Route::EncClone) }
 }
-//@ harness name=kuz_sse2_enc_rk_val prop=C12,C03,C20 tier=thorough bits=1408 stub=1 est=60 desc="W: Kuznyechik::from(enc) (by value): encrypt_block == oracle E, all round keys, all blocks"
+//@ harness name=kuz_sse2_enc_rk_val prop=C12,C03,C20 tier=thorough bits=1408 stub=1 est=60 desc="W: Kuznyechik::from(enc) (by value; runs the real inv_enc_keys too): encrypt_block == oracle E, all round keys, all blocks"
 verif_harness! {
     name: kuz_sse2_enc_rk_val,
     bytes: 160 + 16,
@@ -181,21 +178,13 @@ verif_harness! {
     stubs: [(crate::sse2::backends::transform, stub_transform), (crate::sse2::backends::sub_bytes, stub_sub_bytes)],
     prop: |inp| { k::w_enc_rk(inp, Route::Val) }
 }
-//@ harness name=kuz_sse2_enc_rk_ref prop=C12,C03,C20 tier=thorough bits=1408 stub=1 est=60 desc="W: Kuznyechik::from(&enc) (by reference): encrypt_block == oracle E, all round keys, all blocks"
+//@ harness name=kuz_sse2_enc_rk_ref prop=C12,C03,C20 tier=quick bits=1408 stub=1 est=60 desc="W: Kuznyechik::from(&enc) (by reference): encrypt_block == oracle E, all round keys, all blocks"
 verif_harness! {
     name: kuz_sse2_enc_rk_ref,
     bytes: 160 + 16,
     unwind: 70,
     stubs: [(crate::sse2::backends::transform, stub_transform), (crate::sse2::backends::sub_bytes, stub_sub_bytes)],
     prop: |inp| { k::w_enc_rk(inp, Route::Ref) }
-}
-//@ harness name=kuz_sse2_enc_rk_valclone prop=C12,C20 tier=thorough bits=1408 stub=1 est=60 desc="W: Kuznyechik::from(enc).clone(): encrypt_block == oracle E, all round keys, all blocks"
-verif_harness! {
-    name: kuz_sse2_enc_rk_valclone,
-    bytes: 160 + 16,
-    unwind: 70,
-    stubs: [(crate::sse2::backends::transform, stub_transform), (crate::sse2::backends::sub_bytes, stub_sub_bytes)],
-    prop: |inp| { k::w_enc_rk(inp, Route::ValClone) }
 }
 //@ harness name=kuz_sse2_enc_rk_refclone prop=C12,C20 tier=thorough bits=1408 stub=1 est=60 desc="W: Kuznyechik::from(&enc).clone(): encrypt_block == oracle E, all round keys, all blocks"
 verif_harness! {
@@ -205,8 +194,27 @@ verif_harness! {
     stubs: [(crate::sse2::backends::transform, stub_transform), (crate::sse2::backends::sub_bytes, stub_sub_bytes)],
     prop: |inp| { k::w_enc_rk(inp, Route::RefClone) }
 }
+//@ harness name=kuz_sse2_par4 prop=C04,C20 tier=quick bits=1792 stub=1 est=100 desc="W: KuznyechikEnc::encrypt_blocks on 4 blocks (exactly one 4-wide encrypt_par_blocks batch of the sse2 back end) == four encrypt_block calls on the same instance, all four output blocks; arbitrary round keys, all block contents"
+verif_harness! {
+    name: kuz_sse2_par4,
+    bytes: 160 + 64,
+    unwind: 70,
+    stubs: [(crate::sse2::backends::transform, stub_transform), (crate::sse2::backends::sub_bytes, stub_sub_bytes)],
+    prop: |inp| { k::w_par_enc::<4>(inp) }
+}
+//@ harness name=kuz_sse2_par5 prop=C04,C20 tier=thorough bits=1920 stub=1 est=150 desc="W: KuznyechikEnc::encrypt_blocks on 5 blocks (one 4-wide batch + a tail of one) == five encrypt_block calls; arbitrary round keys, all block contents"
+verif_harness! {
+    name: kuz_sse2_par5,
+    bytes: 160 + 80,
+    unwind: 70,
+    stubs: [(crate::sse2::backends::transform, stub_transform), (crate::sse2::backends::sub_bytes, stub_sub_bytes)],
+    prop: |inp| { k::w_par_enc::<5>(inp) }
+}
 
 // ---------------------------------------------------------------------------------------------------------- wiring: decryption
+// Decryption keys come from the REAL inv_enc_keys applied to arbitrary encryption round keys (through the real From
+// conversions); the result must be the standard's D over the encryption round keys.  Assumed: the eight instances of the
+// linearity of L^-1 that the pre-transformed keys rely on (kz_common::lin_instances, lemma kuz_lin_linv).
 
 //@ harness name=kuz_sse2_dec_rk_val prop=C07,C03,C12,C20 tier=quick bits=1408 stub=1 est=250 desc="W: KuznyechikDec::from(enc) (by value, real inv_enc_keys) over arbitrary encryption round keys: decrypt_block == oracle D = X[K1] S^-1 L^-1 X[K2] ... S^-1 L^-1 X[K10], all round keys, all blocks (linearity instances of L^-1 assumed, lemma kuz_lin_linv)"
 verif_harness! {
@@ -216,7 +224,7 @@ verif_harness! {
     stubs: [(crate::sse2::backends::transform, stub_transform), (crate::sse2::backends::sub_bytes, stub_sub_bytes)],
     prop: |inp| { k::w_dec_rk(inp, Route::Val, false, true) }
 }
-//@ harness name=kuz_sse2_dec_rk_ref prop=C07,C03,C12,C20 tier=thorough bits=1408 stub=1 est=200 desc="W: KuznyechikDec::from(&enc) (by reference): decrypt_block == oracle D, all round keys, all blocks"
+//@ harness name=kuz_sse2_dec_rk_ref prop=C07,C03,C12,C20 tier=quick bits=1408 stub=1 est=250 desc="W: KuznyechikDec::from(&enc) (by reference): decrypt_block == oracle D, all round keys, all blocks (linearity instances of L^-1 assumed, lemma kuz_lin_linv)"
 verif_harness! {
     name: kuz_sse2_dec_rk_ref,
     bytes: 160 + 16,
@@ -224,15 +232,7 @@ verif_harness! {
     stubs: [(crate::sse2::backends::transform, stub_transform), (crate::sse2::backends::sub_bytes, stub_sub_bytes)],
     prop: |inp| { k::w_dec_rk(inp, Route::Ref, false, true) }
 }
-//@ harness name=kuz_sse2_dec_rk_valclone prop=C12,C20 tier=thorough bits=1408 stub=1 est=200 desc="W: KuznyechikDec::from(enc).clone(): decrypt_block == oracle D, all round keys, all blocks"
-verif_harness! {
-    name: kuz_sse2_dec_rk_valclone,
-    bytes: 160 + 16,
-    unwind: 70,
-    stubs: [(crate::sse2::backends::transform, stub_transform), (crate::sse2::backends::sub_bytes, stub_sub_bytes)],
-    prop: |inp| { k::w_dec_rk(inp, Route::ValClone, false, true) }
-}
-//@ harness name=kuz_sse2_dec_rk_refclone prop=C12,C20 tier=thorough bits=1408 stub=1 est=200 desc="W: KuznyechikDec::from(&enc).clone(): decrypt_block == oracle D, all round keys, all blocks"
+//@ harness name=kuz_sse2_dec_rk_refclone prop=C12,C20 tier=thorough bits=1408 stub=1 est=250 desc="W: KuznyechikDec::from(&enc).clone(): decrypt_block == oracle D, all round keys, all blocks (linearity instances of L^-1 assumed, lemma kuz_lin_linv)"
 verif_harness! {
     name: kuz_sse2_dec_rk_refclone,
     bytes: 160 + 16,
@@ -240,7 +240,7 @@ verif_harness! {
     stubs: [(crate::sse2::backends::transform, stub_transform), (crate::sse2::backends::sub_bytes, stub_sub_bytes)],
     prop: |inp| { k::w_dec_rk(inp, Route::RefClone, false, true) }
 }
-//@ harness name=kuz_sse2_both_dec_rk_val prop=C07,C03,C12,C20 tier=thorough bits=1408 stub=1 est=200 desc="W: Kuznyechik::from(enc) (by value): decrypt_block == oracle D, all round keys, all blocks"
+//@ harness name=kuz_sse2_both_dec_rk_val prop=C07,C03,C12,C20 tier=thorough bits=1408 stub=1 est=250 desc="W: Kuznyechik::from(enc) (by value): decrypt_block == oracle D, all round keys, all blocks (linearity instances of L^-1 assumed, lemma kuz_lin_linv)"
 verif_harness! {
     name: kuz_sse2_both_dec_rk_val,
     bytes: 160 + 16,
@@ -248,7 +248,7 @@ verif_harness! {
     stubs: [(crate::sse2::backends::transform, stub_transform), (crate::sse2::backends::sub_bytes, stub_sub_bytes)],
     prop: |inp| { k::w_dec_rk(inp, Route::Val, true, true) }
 }
-//@ harness name=kuz_sse2_both_dec_rk_ref prop=C07,C03,C12,C20 tier=thorough bits=1408 stub=1 est=200 desc="W: Kuznyechik::from(&enc) (by reference): decrypt_block == oracle D, all round keys, all blocks"
+//@ harness name=kuz_sse2_both_dec_rk_ref prop=C07,C03,C12,C20 tier=quick bits=1408 stub=1 est=250 desc="W: Kuznyechik::from(&enc) (by reference): decrypt_block == oracle D, all round keys, all blocks (linearity instances of L^-1 assumed, lemma kuz_lin_linv)"
 verif_harness! {
     name: kuz_sse2_both_dec_rk_ref,
     bytes: 160 + 16,
@@ -256,15 +256,7 @@ verif_harness! {
     stubs: [(crate::sse2::backends::transform, stub_transform), (crate::sse2::backends::sub_bytes, stub_sub_bytes)],
     prop: |inp| { k::w_dec_rk(inp, Route::Ref, true, true) }
 }
-//@ harness name=kuz_sse2_both_dec_rk_valclone prop=C12,C20 tier=thorough bits=1408 stub=1 est=200 desc="W: Kuznyechik::from(enc).clone(): decrypt_block == oracle D, all round keys, all blocks"
-verif_harness! {
-    name: kuz_sse2_both_dec_rk_valclone,
-    bytes: 160 + 16,
-    unwind: 70,
-    stubs: [(crate::sse2::backends::transform, stub_transform), (crate::sse2::backends::sub_bytes, stub_sub_bytes)],
-    prop: |inp| { k::w_dec_rk(inp, Route::ValClone, true, true) }
-}
-//@ harness name=kuz_sse2_both_dec_rk_refclone prop=C12,C20 tier=thorough bits=1408 stub=1 est=200 desc="W: Kuznyechik::from(&enc).clone(): decrypt_block == oracle D, all round keys, all blocks"
+//@ harness name=kuz_sse2_both_dec_rk_refclone prop=C12,C20 tier=thorough bits=1408 stub=1 est=250 desc="W: Kuznyechik::from(&enc).clone(): decrypt_block == oracle D, all round keys, all blocks (linearity instances of L^-1 assumed, lemma kuz_lin_linv)"
 verif_harness! {
     name: kuz_sse2_both_dec_rk_refclone,
     bytes: 160 + 16,
@@ -272,26 +264,10 @@ verif_harness! {
     stubs: [(crate::sse2::backends::transform, stub_transform), (crate::sse2::backends::sub_bytes, stub_sub_bytes)],
     prop: |inp| { k::w_dec_rk(inp, Route::RefClone, true, true) }
 }
-//@ harness name=kuz_sse2_dec_key prop=C07,C03,C12,C20 tier=thorough bits=384 stub=1 est=300 mem=30 cap=3600 desc="W: KuznyechikDec::new(key).decrypt_block(b) == oracle D(key schedule(key), b), all keys, all blocks"
-verif_harness! {
-    name: kuz_sse2_dec_key,
-    bytes: 48,
-    unwind: 70,
-    stubs: [(crate::sse2::backends::transform, stub_transform), (crate::sse2::backends::sub_bytes, stub_sub_bytes)],
-    prop: |inp| { k::w_dec_key(inp, 0, true) }
-}
-//@ harness name=kuz_sse2_dec_key_both prop=C07,C03,C12,C20 tier=thorough bits=384 stub=1 est=300 mem=30 cap=3600 desc="W: Kuznyechik::new(key).decrypt_block(b) == oracle D(key schedule(key), b), all keys, all blocks"
-verif_harness! {
-    name: kuz_sse2_dec_key_both,
-    bytes: 48,
-    unwind: 70,
-    stubs: [(crate::sse2::backends::transform, stub_transform), (crate::sse2::backends::sub_bytes, stub_sub_bytes)],
-    prop: |inp| { k::w_dec_key(inp, 1, true) }
-}
 
 // ---------------------------------------------------------------------------------------------------------- round trips
 
-//@ harness name=kuz_sse2_rt_enc_dec prop=C01,C20 tier=thorough bits=1408 stub=1 est=200 desc="W: KuznyechikEnc encrypts, KuznyechikDec::from(&enc) decrypts: result == b, arbitrary round keys, all blocks (S, L uninterpreted inverse pairs)"
+//@ harness name=kuz_sse2_rt_enc_dec prop=C01,C20 tier=thorough bits=1408 stub=1 est=250 desc="W: KuznyechikEnc encrypts, KuznyechikDec::from(&enc) decrypts: result == b, arbitrary round keys, all blocks (S, L uninterpreted inverse pairs) (linearity instances of L^-1 assumed, lemma kuz_lin_linv)"
 verif_harness! {
     name: kuz_sse2_rt_enc_dec,
     bytes: 160 + 16,
@@ -299,7 +275,7 @@ verif_harness! {
     stubs: [(crate::sse2::backends::transform, stub_transform), (crate::sse2::backends::sub_bytes, stub_sub_bytes)],
     prop: |inp| { k::w_roundtrip_rk(inp, 0, true) }
 }
-//@ harness name=kuz_sse2_rt_ed prop=C01,C20 tier=quick bits=1408 stub=1 est=221 desc="W: Kuznyechik::from(&enc): dec(enc(b)) == b, arbitrary round keys, all blocks"
+//@ harness name=kuz_sse2_rt_ed prop=C01,C20 tier=quick bits=1408 stub=1 est=221 desc="W: Kuznyechik::from(&enc): dec(enc(b)) == b, arbitrary round keys, all blocks (S, L uninterpreted inverse pairs) (linearity instances of L^-1 assumed, lemma kuz_lin_linv)"
 verif_harness! {
     name: kuz_sse2_rt_ed,
     bytes: 160 + 16,
@@ -307,7 +283,7 @@ verif_harness! {
     stubs: [(crate::sse2::backends::transform, stub_transform), (crate::sse2::backends::sub_bytes, stub_sub_bytes)],
     prop: |inp| { k::w_roundtrip_rk(inp, 1, true) }
 }
-//@ harness name=kuz_sse2_rt_de prop=C01,C20 tier=thorough bits=1408 stub=1 est=200 desc="W: Kuznyechik::from(&enc): enc(dec(b)) == b, arbitrary round keys, all blocks"
+//@ harness name=kuz_sse2_rt_de prop=C01,C20 tier=thorough bits=1408 stub=1 est=250 desc="W: Kuznyechik::from(&enc): enc(dec(b)) == b, arbitrary round keys, all blocks (S, L uninterpreted inverse pairs) (linearity instances of L^-1 assumed, lemma kuz_lin_linv)"
 verif_harness! {
     name: kuz_sse2_rt_de,
     bytes: 160 + 16,
